@@ -499,7 +499,23 @@ impl Drop for Driver {
                     Self::CANCEL | Self::NOTIFY => {}
                     // Not the last completion of a multishot operation: its key stays
                     // in flight (one reference, whatever the number of completions).
-                    _ if more(entry.flags()) => {}
+                    // What the completion carries is handed to the operation as in
+                    // `poll_entries`: a connection accepted by a multishot accept is
+                    // owned (and closed) by the operation only once it has seen it. A
+                    // buffer of the (already released) buffer pool is nothing to hand
+                    // over.
+                    key if more(entry.flags()) => {
+                        if io_uring::cqueue::buffer_select(entry.flags()).is_none() {
+                            let key = unsafe { BorrowedKey::from_raw(key as _) };
+                            let mut key = key.borrow();
+                            let mut extra: crate::sys::Extra = IourExtra::new().into();
+                            extra.set_flags(entry.flags());
+                            unsafe {
+                                key.carrier
+                                    .push_multishot(create_result(entry.result()), extra);
+                            }
+                        }
+                    }
                     // A completion that carries a buffer of the (already released)
                     // buffer pool: nothing to hand over.
                     key if io_uring::cqueue::buffer_select(entry.flags()).is_some() => {
